@@ -169,7 +169,7 @@ class C05(Prop):
                                        'c05.user_below', 'c05.user_above',
                                        'c05.near_coincident']}
         return {'runs': 120000, 'wall_s': 1000, 'per_run_timeout': 900,
-                'shrink_s': 300, 'min_evaluated': 20000,
+                'shrink_s': 300, 'min_evaluated': 3000,
                 'require_probes': ['c05.full_world', 'c05.bare',
                                    'c05.user_below', 'c05.user_above',
                                    'c05.near_coincident', 'c05.fine_mesh']}
